@@ -1,6 +1,8 @@
 package http2
 
 import (
+	"bufio"
+
 	"github.com/dgrr/http2/http2utils"
 )
 
@@ -167,4 +169,53 @@ func (h *Headers) Serialize(frh *FrameHeader) {
 	}
 
 	frh.payload = append(frh.payload[:0], h.rawHeaders...)
+}
+
+// writeHeaderBlock writes fr to w. A HEADERS frame whose header block is
+// longer than max is not written as it is: the first max octets go out in the
+// HEADERS frame and the rest in CONTINUATION frames of at most max octets
+// each, END_HEADERS moving to the last of them. END_STREAM stays on the
+// HEADERS frame (RFC 7540 6.2, 6.10). Any other frame is written unchanged.
+//
+// Nothing may come between the frames of a header block (RFC 7540 4.3), so
+// the caller must be the only writer to w for the duration of the call.
+//
+// A HEADERS frame with padding or a priority section is never split: Serialize
+// folds both into the block, and neither the server nor the client sends them.
+func writeHeaderBlock(w *bufio.Writer, fr *FrameHeader, max int) error {
+	h, ok := fr.Body().(*Headers)
+	if !ok || max <= 0 || len(h.rawHeaders) <= max || h.hasPadding || h.priority {
+		_, err := fr.WriteTo(w)
+
+		return err
+	}
+
+	block, endHeaders := h.rawHeaders, h.endHeaders
+
+	h.rawHeaders, h.endHeaders = block[:max], false
+	_, err := fr.WriteTo(w)
+	h.rawHeaders, h.endHeaders = block, endHeaders
+
+	cfr := AcquireFrameHeader()
+	defer ReleaseFrameHeader(cfr)
+
+	cfr.SetStream(fr.Stream())
+
+	c := AcquireFrame(FrameContinuation).(*Continuation)
+	cfr.SetBody(c)
+
+	for block = block[max:]; err == nil && len(block) > 0; {
+		n := len(block)
+		if n > max {
+			n = max
+		}
+
+		c.SetEndHeaders(endHeaders && n == len(block))
+		c.SetHeader(block[:n])
+		block = block[n:]
+
+		_, err = cfr.WriteTo(w)
+	}
+
+	return err
 }
